@@ -3,6 +3,7 @@
 package app
 
 import (
+	"github.com/yandex/mysync/internal/app/optimization"
 	"testing/synctest"
 	"fmt"
 	"math/rand"
@@ -196,6 +197,15 @@ func c01one(t *testing.T, out *verifh.Out, r *rand.Rand, dir string) {
 	if err := app.cluster.UpdateHostsInfo(); err != nil {
 		t.Fatal(err)
 	}
+	// leftovers in the optimisation registry: a host that is not a list member (listed first) and a replica that is still
+	// relaxed and registered — optimisation must be switched off on every candidate before the freeze
+	if r.Intn(4) == 0 {
+		relaxed := hosts[1+r.Intn(n-1)]
+		tree.Put("optimization_nodes", "")
+		tree.Put("optimization_nodes/a0", optimization.DCSState{Status: optimization.StatusEnabled})
+		tree.Put("optimization_nodes/"+relaxed, optimization.DCSState{Status: optimization.StatusEnabled})
+		wd.Nodes[relaxed].FlushLog, wd.Nodes[relaxed].SyncBinlog = 2, 1000
+	}
 	um := wd.Nodes[master].UUID
 	u2 := "77777777-0000-0000-0000-000000000077"
 	foreign := "99999999-0000-0000-0000-000000000099"
@@ -276,10 +286,15 @@ func c01one(t *testing.T, out *verifh.Out, r *rand.Rand, dir string) {
 		active = active[:n-1]
 	}
 	tree.Put("active_nodes", active)
-	// after the freeze the IO threads are stopped; the SQL threads keep applying what was retrieved
+	// after the freeze the IO threads are stopped; the SQL threads keep applying what was retrieved — some of them only after
+	// a few seconds (busy with a long transaction): when positions are read, what they received is not applied yet although
+	// they report a lag
 	for _, h := range hosts[1:] {
 		wd.Nodes[h].InstantRepl = true
 		wd.Nodes[h].Repl.IO = true
+		if r.Intn(4) == 0 {
+			wd.Nodes[h].ApplyAfter = time.Now().Add(time.Duration(2+r.Intn(4)) * time.Second)
+		}
 	}
 	// keep replicas from downloading before they are frozen: the master is "quiet" (nothing new) — retrieved tails are what they have
 	cs := app.getClusterStateFromDB()
@@ -340,7 +355,14 @@ func c01one(t *testing.T, out *verifh.Out, r *rand.Rand, dir string) {
 		if op == "acquire" {
 			lockSeen++
 			if lockSeen == 1 {
-				snaps = append(snaps, c01Snap{At: "lock1", Nodes: wd.DigestNoLock()})
+				var reg []string
+				for p := range tree.SnapshotNoLock("optimization_nodes") {
+					if strings.HasPrefix(p, "optimization_nodes/") {
+						reg = append(reg, p[19:])
+					}
+				}
+				sort.Strings(reg)
+				snaps = append(snaps, c01Snap{At: "lock1", Nodes: wd.DigestNoLock(), Registry: reg})
 			}
 		}
 	}
@@ -435,7 +457,7 @@ func c01one(t *testing.T, out *verifh.Out, r *rand.Rand, dir string) {
 		"sw":     map[string]any{"from": sw.From, "to": sw.To, "cause_auto": sw.Cause == CauseAuto, "failover_type": sw.MasterTransition == FailoverTransition, "turbo": sw.MasterTransition == SwitchoverTransition && semi},
 		"fault":  fault, "evs": evl, "steps": steps, "snaps": snaps, "emerge": emerge, "err": errS, "panic": panicked,
 		"final":  wd.Digest(), "master_after": masterAfter, "switch_present": tree.Has("switch"), "recovery": tree.Snapshot("recovery"),
-		"late": late, "opt_registry_after": regAfter})
+		"late": late, "opt_registry_after": regAfter, "active_after": func() []string { var l []string; tree.GetJSON("active_nodes", &l); return l }()})
 }
 
 func TestVerifC01(t *testing.T) {
